@@ -11,6 +11,7 @@ mod probe_checks;
 mod probes;
 mod scen;
 mod treasury_grid;
+mod xcheck;
 
 use std::process::exit;
 
